@@ -56,8 +56,9 @@ def run(ctx):
             continue
         got = cnd.result_rows(prog, b, positional=True)
         want = sorted((r["result"], sorted(r["when"])) for r in rows)
-        gset = [(r, tuple(w)) for r, w in got]
-        wset = [(r, tuple(w)) for r, w in want]
+        # normal form: integer constraints folded per subject, multi-variant literals split (see conds.norm_rows)
+        gset = cnd.norm_rows(got)
+        wset = cnd.norm_rows(want)
         for row in wset:
             if row in gset:
                 rep.ok("BMCA-7", b.key, "%s <= %s" % (row[0], "; ".join(row[1]))[:180], where=b.loc())
